@@ -664,6 +664,30 @@ def step (s : St) (op : List String) (impl : Option (List String)) : St × Strin
       let t := IT.new pi v lo hi sc (hy == "1")
       ({ s with t := s.t.set! k (some (.i t)) }, sh t.x, "-")
     | _, _, _, _, _ => (s, "bad-op", "-")
+  | ["t.ctor", k, v, lo, hi, sc, hy] =>
+    -- `IntervalTransformedParameter(name, value, lo, hi, scale, hyper)` with read-back: the value handed
+    -- to the *constructor* must round-trip like one handed to `setOriginalValue` (`interval_roundtrip_*`;
+    -- the constructor has its own copy of the forward formula, TransformedParameter.h:187-189)
+    match nat? k, fl? v, fl? lo, fl? hi, fl? sc with
+    | some k, some v, some lo, some hi, some sc =>
+      if k ≥ 4 then (s, "bad-op", "-") else
+      let t := IT.new pi v lo hi sc (hy == "1")
+      let p : TP F := .i t
+      let out := shs [t.x, p.getOriginal pi]
+      let verdict := match impl with
+        | some [_, o] =>
+          match fl? o with
+          | some o =>
+            if !inScope p || !(lo < v && v < hi) then "-"
+            else if !(roundTripOk p v o) then "FAIL:roundtrip"
+            else if !(inDomain p o) then "FAIL:back_in_domain"
+            else if !(inOpenDomain p o) || !(finite t.x) then "FAIL:back_in_open_domain_float"
+            else "ok"
+          | none => "FAIL:parse"
+        | some _ => "FAIL:parse"
+        | none => "-"
+      ({ s with t := s.t.set! k (some p) }, out, verdict)
+    | _, _, _, _, _ => (s, "bad-op", "-")
   | ["p.new", k, v] =>
     match nat? k, fl? v with
     | some k, some v =>
